@@ -11,6 +11,20 @@ use std::collections::BTreeMap;
 
 mod asm;
 mod sbuf;
+mod ackfreq;
+mod ackscan;
+mod cidq;
+mod cidstate;
+mod pathresp;
+mod pendingacks;
+mod frame;
+mod header;
+mod tparams;
+mod token;
+mod bloomlog;
+mod tokencache;
+mod cc;
+mod sentpk;
 mod snapshot;
 mod wire;
 
@@ -45,6 +59,22 @@ pub(crate) fn num(s: &str) -> Option<u64> {
 
 pub(crate) const BAD: &str = "bad-op";
 
+thread_local! {
+    /// Float-derived intermediate values recorded by the congestion controllers while an executor runs
+    /// them (name, value as the code converts it to an integer)
+    static TAP: std::cell::RefCell<Vec<(&'static str, u64)>> = const { std::cell::RefCell::new(Vec::new()) };
+}
+
+/// Record one observed value (called from guarded lines inside `congestion::*`)
+pub(crate) fn tap(name: &'static str, value: u64) {
+    TAP.with(|t| t.borrow_mut().push((name, value)));
+}
+
+/// Take everything recorded since the last call
+pub(crate) fn tap_take() -> Vec<(&'static str, u64)> {
+    TAP.with(|t| std::mem::take(&mut *t.borrow_mut()))
+}
+
 /// One addressable component: holds its own state, executes one request (first token removed).
 pub(crate) trait Comp {
     fn exec(&mut self, w: &[&str]) -> String;
@@ -61,6 +91,20 @@ fn registry(name: &str) -> Option<Ctor> {
         "dedup" => || Box::new(wire::DedupC::new()),
         "sbuf" => || Box::new(sbuf::SbufC::new()),
         "asm" => || Box::new(asm::AsmC::new()),
+        "cidq" => || Box::new(cidq::CidqC::new()),
+        "ackfreq" => || Box::new(ackfreq::AckFreqC::new()),
+        "ackscan" => || Box::new(ackscan::AckScanC),
+        "pathresp" => || Box::new(pathresp::PathRespC::new()),
+        "pendingacks" => || Box::new(pendingacks::PendingAcksC::new()),
+        "cidstate" => || Box::new(cidstate::CidStateC::new()),
+        "frame" => || Box::new(frame::FrameC),
+        "header" => || Box::new(header::HeaderC),
+        "tparams" => || Box::new(tparams::TparamsC),
+        "token" => || Box::new(token::TokenC::new()),
+        "bloomlog" => || Box::new(bloomlog::BloomLogC::new()),
+        "tokencache" => || Box::new(tokencache::TokenCacheC::new()),
+        "sentpk" => || Box::new(sentpk::SentpkC::new()),
+        "cc" => || Box::new(cc::CcC::new()),
         _ => return None,
     })
 }
